@@ -118,7 +118,7 @@ CHECKS = {
         "assumptions": ["one receiveSync at a time per session (single-waiter contract)", "at most one data callback may be in flight when Disabled takes effect",
                         "overflow runs stay in Sync mode"],
         "jobs": [
-            {"harness": "c03_syncrecv", "flavour": "asan", "runs": {"quick": 16000, "thorough": 1500000}, "wall": {"quick": 45, "thorough": 300}},
+            {"harness": "c03_syncrecv", "flavour": "asan", "runs": {"quick": 16000, "thorough": 1500000}, "wall": {"quick": 300, "thorough": 300}},
         ],
     },
     "C04": {
@@ -132,7 +132,7 @@ CHECKS = {
         "assumptions": ["return-time bound = timeout + simulator-injected stall + 60 ms (+2.4 s for host names: the engine's DNS guard, +110 ms for cancellable calls: 100 ms polling)",
                         "the engine's shutdown close reason (Unknown, 'shutdown') counts as the definite 'shutting down' error"],
         "jobs": [
-            {"harness": "c04_connectsync", "flavour": "asan", "runs": {"quick": 9000, "thorough": 900000}, "wall": {"quick": 45, "thorough": 300}},
+            {"harness": "c04_connectsync", "flavour": "asan", "runs": {"quick": 9000, "thorough": 900000}, "wall": {"quick": 300, "thorough": 300}},
         ],
     },
     "C05": {
